@@ -202,7 +202,8 @@ pub fn engine_secrets(rt: &tokio::runtime::Runtime, cases: Vec<Value>, out: &mut
         let frames = crate::runs::frames_of(&data, &session_id);
         let kinds: Vec<Value> = frames.iter().map(|f| f["type"].clone()).collect();
         let auth: Vec<Value> = requests.iter().map(|r| json!({"authorization": r["headers"]["authorization"], "x-secret-1": r["headers"]["x-secret-1"],
-                                                               "x-secret-2": r["headers"]["x-secret-2"], "x-secret-3": r["headers"]["x-secret-3"]})).collect();
+                                                               "x-secret-2": r["headers"]["x-secret-2"], "x-secret-3": r["headers"]["x-secret-3"],
+                                                               "x-gateway-signature": r["headers"]["x-gateway-signature"], "x-upstream-passphrase": r["headers"]["x-upstream-passphrase"]})).collect();
         out.write(&json!({"id": case["id"], "http": http, "doctor": serde_json::from_str::<Value>(&doctor).unwrap_or(Value::Null), "hits": hits,
                           "files_searched": nfiles, "bytes_searched": nbytes + doctor.len() + sse.len() + err_bytes.len(), "requests": auth,
                           "frame_kinds": kinds, "thread": thread_id, "dump_frames": frames.iter().filter(|f| f["type"] == "openresponses_request").count(),
